@@ -31,7 +31,7 @@ theorem adopt_only_if_hash (m : M) (k i len : Nat) (good : Bool) (h0 : m.1.info 
     have h0' : (hmdStored m d k i good).1.info = false := h0
     have hcfg : (hmdStored m d k i good).1.cfg = m.1.cfg := rfl
     rw [h0', hcfg] at h1
-    obtain ⟨hd, hi, hlen, hpend, hh⟩ := hc
+    obtain ⟨hd, hi, hlen, _, hpend, hh⟩ := hc
     have h2 : m.1.cfg.n ≤ m.1.cfg.maxPieces ∧ m.1.cfg.isPrivate = false := by simpa using h1
     exact ⟨h2.2, d, hd, hi, hlen, hpend, hh⟩
 
